@@ -61,8 +61,10 @@
 (*    - the handle answered `file already closed`, which log.Logger        *)
 (*    discards: the entry was lost without a trace.                        *)
 (* Hypothetical breakages, for showing that the properties are not vacuous *)
-(* (`_neg` cfgs): REOPEN = FALSE (Close of the shared writer is final),    *)
-(* SPLIT_WRITE (an entry reaches the writer in two Write calls).           *)
+(* (cfgs LogSink_noreopen, LogSink_split; LogSink_asfound for EAGER_RAW;   *)
+(* none of them in the pipeline): REOPEN = FALSE (Close of the shared      *)
+(* writer is final), SPLIT_WRITE (an entry reaches the writer in two Write *)
+(* calls).                                                                 *)
 (***************************************************************************)
 EXTENDS Integers, Sequences, FiniteSets, TLC, Json
 
